@@ -1079,35 +1079,43 @@ func init() {
 }
 
 type shaApp struct {
+	Name      string
 	A, Off, N *Term
 	Out       *Term
+	OutLen    int
 }
 
-// sha1Of models SHA-1 as an uninterpreted function of the byte string: a fresh 20-byte
-// result per application plus functional consistency with every earlier application on the
-// path (skolemised extensionality: results differ only if lengths differ or some byte differs).
-func (ex *Exec) sha1Of(st *State, s SliceV) *Term {
+// sha1Of models SHA-1 as an uninterpreted function of the byte string.
+func (ex *Exec) sha1Of(st *State, s SliceV) *Term { return ex.ufOf(st, "sha1", s, 20) }
+
+// ufOf: an uninterpreted function from byte strings to outLen bytes: a fresh result per
+// application plus functional consistency with every earlier application of the same function on
+// the path (skolemised extensionality: results differ only if lengths differ or some byte differs).
+func (ex *Exec) ufOf(st *State, name string, s SliceV, outLen int) *Term {
 	var a *Term = AConst(8, 0)
 	if s.Obj != 0 {
 		av, _ := ex.sliceArr(st, s)
 		a = av.A
 	}
 	for _, p := range st.sha1s {
-		if p.A == a && p.Off == s.Off && p.N == s.Len {
+		if p.Name == name && p.A == a && p.Off == s.Off && p.N == s.Len {
 			return p.Out
 		}
 	}
-	out := ex.freshArr("sha1")
+	out := ex.freshArr(name)
 	for _, p := range st.sha1s {
-		sk := ex.freshVar("sha1.sk", BV(64))
+		if p.Name != name {
+			continue
+		}
+		sk := ex.freshVar(name+".sk", BV(64))
 		outEq := True
-		for i := uint64(0); i < 20; i++ {
+		for i := uint64(0); i < uint64(outLen); i++ {
 			outEq = And(outEq, Eq(Select(out, Const(64, i)), Select(p.Out, Const(64, i))))
 		}
 		diff := And(Ult(sk, s.Len), Not(Eq(Select(a, Add(s.Off, sk)), Select(p.A, Add(p.Off, sk)))))
 		st.pc = append(st.pc, Or(outEq, Not(Eq(s.Len, p.N)), diff))
 	}
-	st.sha1s = append(st.sha1s, shaApp{a, s.Off, s.Len, out})
+	st.sha1s = append(st.sha1s, shaApp{name, a, s.Off, s.Len, out, outLen})
 	return out
 }
 
@@ -1203,6 +1211,143 @@ func init() {
 		if strings.HasPrefix(n, "sync/atomic.") {
 			visibleOps[n] = "atomic"
 		}
+	}
+}
+
+func sliceKey(st *State, ex *Exec, s SliceV) string {
+	if s.Obj == 0 {
+		return "nil"
+	}
+	a, _ := ex.sliceArr(st, s)
+	return fmt.Sprintf("%d:%d:%d", a.A.id, s.Off.id, s.Len.id)
+}
+
+func (ex *Exec) bigOf(st *State, p PtrV, pos token.Pos) (BigV, bool) {
+	v, ok := ex.load(st, p, pos)
+	if !ok {
+		return BigV{}, false
+	}
+	if b, isBig := v.(BigV); isBig && b.Bytes != nil {
+		return b, true
+	}
+	// a big.Int never assigned by modelled code (package constant, zero value): an arbitrary but
+	// fixed value per object
+	key := fmt.Sprintf("obj:%d", p.Obj)
+	a, ok := st.bigBytes[key]
+	if !ok {
+		a = ex.freshArr("bigconst")
+		st.bigBytes[key] = a
+	}
+	return BigV{Key: key, Bytes: a}, true
+}
+
+func init() {
+	ret0 := func(ex *Exec, st *State, args []Value, in *ssa.Call, pos token.Pos) bool {
+		setRes(st, in, args[0])
+		return true
+	}
+	keep := func(ex *Exec, st *State, args []Value, in *ssa.Call, pos token.Pos) bool {
+		// SetString / SetInt64 / Sub in package init: the object keeps an arbitrary fixed value
+		if tup, ok := in.Type().(*types.Tuple); ok && tup.Len() == 2 {
+			setRes(st, in, TupleV{args[0], True})
+			return true
+		}
+		setRes(st, in, args[0])
+		return true
+	}
+	intrinsics["(*math/big.Int).SetString"] = keep
+	intrinsics["(*math/big.Int).SetInt64"] = keep
+	intrinsics["(*math/big.Int).Sub"] = keep
+	intrinsics["(*math/big.Int).SetBytes"] = func(ex *Exec, st *State, args []Value, in *ssa.Call, pos token.Pos) bool {
+		// the value of a big-endian byte string, kept in its 96-byte form (right-aligned)
+		b := args[1].(SliceV)
+		var form *Term = AConst(8, 0)
+		if b.Obj != 0 {
+			a, _ := ex.sliceArr(st, b)
+			form = ACopy(AConst(8, 0), Sub(Const(64, 96), b.Len), a.A, b.Off, b.Len)
+		}
+		ex.store(st, args[0].(PtrV), BigV{Key: "bytes", Bytes: form}, pos)
+		return ret0(ex, st, args, in, pos)
+	}
+	intrinsics["(*math/big.Int).Exp"] = func(ex *Exec, st *State, args []Value, in *ssa.Call, pos token.Pos) bool {
+		// z.Exp(x, y, m): an uninterpreted function of the 96-byte forms of x and y
+		x, ok1 := ex.bigOf(st, args[1].(PtrV), pos)
+		y, ok2 := ex.bigOf(st, args[2].(PtrV), pos)
+		if !ok1 || !ok2 {
+			return false
+		}
+		cat := ACopy(ACopy(AConst(8, 0), Const(64, 0), x.Bytes, Const(64, 0), Const(64, 96)), Const(64, 96), y.Bytes, Const(64, 0), Const(64, 96))
+		n := Const(64, 192)
+		msg := SliceV{ex.newObj(st, ArrV{cat, -1, 8}), Const(64, 0), n, n}
+		out := ex.ufOf(st, "modexp", msg, 96)
+		ex.store(st, args[0].(PtrV), BigV{Key: "exp", Bytes: out}, pos)
+		return ret0(ex, st, args, in, pos)
+	}
+	intrinsics["(*math/big.Int).FillBytes"] = func(ex *Exec, st *State, args []Value, in *ssa.Call, pos token.Pos) bool {
+		b, ok := ex.bigOf(st, args[0].(PtrV), pos)
+		if !ok {
+			return false
+		}
+		buf := args[1].(SliceV)
+		if buf.Obj != 0 {
+			ba, _ := ex.sliceArr(st, buf)
+			// big-endian, right-aligned: the last len(buf) bytes of the 96-byte form
+			st.heap[buf.Obj] = &Obj{Val: ArrV{ACopy(ba.A, buf.Off, b.Bytes, Sub(Const(64, 96), buf.Len), buf.Len), ba.N, ba.ElW}}
+		}
+		setRes(st, in, args[1])
+		return true
+	}
+	intrinsics["(*math/big.Int).Bytes"] = func(ex *Exec, st *State, args []Value, in *ssa.Call, pos token.Pos) bool {
+		// the minimal big-endian form: the 96-byte form with its leading zero bytes stripped
+		b, ok := ex.bigOf(st, args[0].(PtrV), pos)
+		if !ok {
+			return false
+		}
+		src := b.Bytes
+		z := ex.freshVar("big.lead", BV(64)) // number of leading zero bytes
+		st.pc = append(st.pc, Ule(z, Const(64, 96)))
+		j := ex.freshVar("big.j", BV(64))
+		st.pc = append(st.pc, Or(Not(Ult(j, z)), Eq(Select(src, j), Const(8, 0))))
+		st.pc = append(st.pc, Or(Eq(z, Const(64, 96)), Not(Eq(Select(src, z), Const(8, 0)))))
+		n := Sub(Const(64, 96), z)
+		setRes(st, in, SliceV{ex.newObj(st, ArrV{ACopy(AConst(8, 0), Const(64, 0), src, z, n), -1, 8}), Const(64, 0), n, n})
+		return true
+	}
+	intrinsics["(*math/big.Int).Cmp"] = func(ex *Exec, st *State, args []Value, in *ssa.Call, pos token.Pos) bool {
+		setRes(st, in, ex.freshVar("big.cmp", BV(64)))
+		return true
+	}
+	intrinsics["crypto/rc4.NewCipher"] = func(ex *Exec, st *State, args []Value, in *ssa.Call, pos token.Pos) bool {
+		k := args[0].(SliceV)
+		key := sliceKey(st, ex, k)
+		ks, ok := st.ksByKey[key]
+		if !ok {
+			ks = ex.freshArr("rc4ks")
+			st.ksByKey[key] = ks
+		}
+		setRes(st, in, TupleV{PtrV{Obj: ex.newObj(st, CipherV{KS: ks, Pos: Const(64, 0)})}, nilErr})
+		return true
+	}
+	intrinsics["(*crypto/rc4.Cipher).XORKeyStream"] = func(ex *Exec, st *State, args []Value, in *ssa.Call, pos token.Pos) bool {
+		cp := args[0].(PtrV)
+		c := st.heap[cp.Obj].Val.(CipherV)
+		dst, src := args[1].(SliceV), args[2].(SliceV)
+		if !ex.require(st, Ule(src.Len, dst.Len), "rc4: output smaller than input", pos) {
+			return false
+		}
+		if src.Obj != 0 && dst.Obj != 0 {
+			da, _ := ex.sliceArr(st, dst)
+			sa, _ := ex.sliceArr(st, src)
+			st.heap[dst.Obj] = &Obj{Val: ArrV{AXor(da.A, dst.Off, sa.A, src.Off, c.KS, c.Pos, src.Len), da.N, da.ElW}}
+		}
+		st.heap[cp.Obj] = &Obj{Val: CipherV{KS: c.KS, Pos: Add(c.Pos, src.Len)}}
+		return true
+	}
+	// streaming SHA-1: the digest object accumulates its input; Sum applies the uninterpreted function
+	intrinsics["crypto/sha1.New"] = func(ex *Exec, st *State, args []Value, in *ssa.Call, pos token.Pos) bool {
+		id := ex.newObj(st, WriterV{A: AConst(8, 0), N: Const(64, 0)})
+		setRes(st, in, IfaceV{T: in.Type(), V: OpaqueV{"sha1digest", id}})
+		return true
 	}
 }
 
